@@ -33,7 +33,8 @@ def cases(ctx):
         yield {"kind": "file", "fcfg": fcfg, "lseed": rng.getrandbits(32), "nlines": rng.randint(3, 40)}
     for i, fcfg in enumerate(ipref.file_configs(rng, ctx.per_shard(ctx.pick(8, 240)), quick=ctx.quick)):
         yield {"kind": "cli", "fcfg": fcfg, "lseed": rng.getrandbits(32), "nlines": rng.randint(3, 25),
-               "hs": [rng.randint(1, 4000), rng.randint(1, 4000)], "private": i % 2 == 1}
+               "hs": [rng.randint(1, 4000), rng.randint(1, 4000)], "private": i % 2 == 1,
+               "odd_salt": [None, " padded ", None, '"quoted"', None, "tab\tinside ", None, "'q' "][i % 8]}
 
 
 def check_case(ctx, case):
@@ -228,6 +229,8 @@ def _cli(ctx, case):
         fcfg["pp"] = None
     if fcfg["salt"].startswith("-") or fcfg["salt"] == "":
         fcfg["salt"] = "s" + fcfg["salt"]
+    if case.get("odd_salt"):
+        fcfg["salt"] = case["odd_salt"]
     rng = random.Random(case["lseed"])
     private = case.get("private", rng.random() < 0.4)
     if private:
